@@ -41,8 +41,18 @@ struct HModel : public AdditiveMeasurementModel {
         Y_ = out;
         return std::make_pair(!failP_, Data(out));
     }
+    // zmode_ 1: the measurement is *exactly* the predicted measurement of component zcomp_ (null innovation);
+    // zmode_ 2: only its first zrows_ entries are (null innovation in the first sub-measurement).  The effective
+    // measurement is recorded in yeff_.
     std::pair<bool, Data> innovation(const Data& pred, const Data& meas) const override {
-        MatrixXd inn = -(any::any_cast<MatrixXd>(pred).colwise() - any::any_cast<MatrixXd>(meas).col(0));
+        MatrixXd p = any::any_cast<MatrixXd>(pred);
+        VectorXd y = any::any_cast<MatrixXd>(meas).col(0);
+        if (zmode_ != 0 && zcomp_ < p.cols()) {
+            long rows = (zmode_ == 1) ? p.rows() : std::min<long>(zrows_, p.rows());
+            y.head(rows) = p.col(zcomp_).head(rows);
+        }
+        yeff_ = y;
+        MatrixXd inn = -(p.colwise() - y);
         return std::make_pair(!failI_, Data(inn));
     }
     std::pair<bool, MatrixXd> getNoiseCovarianceMatrix() const override { return std::make_pair(true, R_); }
@@ -50,6 +60,7 @@ struct HModel : public AdditiveMeasurementModel {
     VectorDescription getMeasurementDescription() const override { return VectorDescription(y_.size()); }
     int kind_; long nc_; MatrixXd H_; VectorXd h0_, y_; MatrixXd R_; bool failM_, failP_, failI_;
     mutable MatrixXd X_, Y_;     // what the correction asked for and what it was told
+    int zmode_ = 0; long zcomp_ = 0, zrows_ = 0; mutable VectorXd yeff_;
 };
 
 static void outLik(Out& o, std::pair<bool, VectorXd> l) {
@@ -63,10 +74,12 @@ static void outLik(Out& o, std::pair<bool, VectorXd> l) {
 // skip(false) toggle that nets to nothing.  The state has n rows, the last nc of them circular (Euler angles).
 //   sukf  n nc msz bs red k alpha beta kappa hkind failM failP failI H h0 y R means covs outw
 //   sukfs n nc mszmax bs red alpha beta kappa mv H h0 R ncalls
-//         { k msz kind failM failP failI rscale toggle qlik y(msz) means covs outw }*
+//         { k msz kind failM failP failI rscale toggle qlik zmode zcomp y(msz) means covs outw }*
+//   zmode: 0 = the measurement y as given; 1 = y replaced by the predicted measurement of component zcomp (exactly null
+//          innovation); 2 = only its first sub-measurement
 //   mv: 0 = the object as constructed, 1 = a move-constructed copy from the start, 2 = moved after the first call
 //   qlik: query the serial likelihood after this call (0 only where stale members of mismatching size would be read)
-struct Call { long k, msz; int kind; bool failM, failP, failI; double rscale; bool toggle, qlik; VectorXd y; MatrixXd means, covs; VectorXd outw; };
+struct Call { long k, msz; int kind; bool failM, failP, failI; double rscale; bool toggle, qlik; int zmode; long zcomp; VectorXd y; MatrixXd means, covs; VectorXd outw; };
 
 static bool sameLik(const std::pair<bool, VectorXd>& a, const std::pair<bool, VectorXd>& b) {
     if (a.first != b.first) return false;
@@ -104,6 +117,7 @@ static std::string runCalls(long n, long nc, long bs, bool red, double alpha, do
         for (HModel* m : { ms, mu }) {
             m->kind_ = c.kind; m->H_ = H.topRows(msz); m->h0_ = h0.head(msz); m->y_ = c.y;
             m->failM_ = c.failM; m->failP_ = c.failP; m->failI_ = c.failI; m->X_.resize(0, 0); m->Y_.resize(0, 0);
+            m->zmode_ = c.zmode; m->zcomp_ = c.zcomp; m->zrows_ = bs; m->yeff_ = c.y;
         }
         std::pair<bool, VectorXd> likS0 = firstCall ? sukfc->getLikelihood() : std::make_pair(false, VectorXd());
         if (c.toggle) { sukfc->skip(true); sukfc->skip(false); ukfc.skip(true); ukfc.skip(false); }
@@ -128,6 +142,7 @@ static std::string runCalls(long n, long nc, long bs, bool red, double alpha, do
         o.s("Y"); o.n(ms->Y_.cols()); o.m(ms->Y_);
         o.s(same ? "in-same" : "in-modified");
         o.s(rep ? "likrep-same" : "likrep-diff");
+        o.s("YE"); o.n(ms->yeff_.size()); o.m(ms->yeff_);      // the measurement the serial correction's innovation was formed with
         firstCall = false;
     }
     return o.str();
@@ -140,7 +155,7 @@ static std::string sukf(Toks& t) {
     MatrixXd H = t.mat(msz, n); VectorXd h0 = t.vec(msz), y = t.vec(msz);
     MatrixXd R = red ? t.mat(bs, bs) : t.mat(msz, msz);
     Call c; c.k = k; c.msz = msz; c.kind = kind; c.failM = failM; c.failP = failP; c.failI = failI; c.rscale = 1.0;
-    c.toggle = false; c.qlik = true; c.y = y;
+    c.toggle = false; c.qlik = true; c.zmode = 0; c.zcomp = 0; c.y = y;
     c.means = t.mat(n, k); c.covs = t.mat(n, n * k); c.outw = t.vec(k);
     t.done();
     return runCalls(n, nc, bs, red, alpha, beta, kappa, 0, H, h0, R, { c });
@@ -156,7 +171,7 @@ static std::string sukfs(Toks& t) {
     std::vector<Call> calls;
     for (long i = 0; i < ncalls; ++i) {
         Call c; c.k = t.nat(); c.msz = t.nat(); c.kind = (int)t.nat();
-        c.failM = t.flag(); c.failP = t.flag(); c.failI = t.flag(); c.rscale = t.dbl(); c.toggle = t.flag(); c.qlik = t.flag();
+        c.failM = t.flag(); c.failP = t.flag(); c.failI = t.flag(); c.rscale = t.dbl(); c.toggle = t.flag(); c.qlik = t.flag(); c.zmode = (int)t.nat(); c.zcomp = t.nat();
         if (c.msz < 1 || c.msz > mszmax) throw vh::BadArgs("msz");
         c.y = t.vec(c.msz); c.means = t.mat(n, c.k); c.covs = t.mat(n, n * c.k); c.outw = t.vec(c.k);
         calls.push_back(c);
